@@ -388,7 +388,7 @@ impl Prop for C11 {
         true
     }
     fn random_cases(tier: Tier) -> u64 {
-        tier.pick(80_000, 8_000_000)
+        tier.pick(300_000, 8_000_000)
     }
     fn strategy(tier: Tier) -> BoxedStrategy<Case> {
         let maxtok = tier.pick(40usize, 120);
@@ -491,6 +491,33 @@ impl Prop for C11 {
                     let sel = ((((r as u64) << 16) / nrefs as u64) + 1).min(65535) as u16;
                     for extra in 0..2u8 {
                         if !emit(Case::Stream { lz11, tokens: toks.clone(), entry: entry.clone(), damage: Damage::BeforeStart(sel, extra), ext: None }) {
+                            return;
+                        }
+                    }
+                }
+            }
+        }
+        // a reference that reaches exactly one byte before the start when 4094 / 4095 / 4096 / 4097 bytes have been produced
+        // (displacement field 0xFFD..0x1000 territory), for both kinds and the wrapped entry
+        for produced in [4094u32, 4095, 4096, 4097] {
+            for lz11 in [false, true] {
+                let mut toks = vec![Tok::Lit(7)];
+                let mut left = produced - 1;
+                while left > 0 {
+                    let step = if lz11 { left.min(4000) } else { left.min(18) };
+                    if step >= 3 {
+                        toks.push(Tok::Ref(step, Disp::Abs(1)));
+                        left -= step;
+                    } else {
+                        toks.push(Tok::Lit(7));
+                        left -= 1;
+                    }
+                }
+                toks.push(Tok::Ref(3, Disp::Far));
+                let entries: Vec<Entry> = if lz11 { vec![Entry::Lz13Bare, Entry::Lz13Wrapped([1, 2, 3])] } else { vec![Entry::Lz10, Entry::Lz13Bare] };
+                for entry in entries {
+                    for damage in [Damage::None, Damage::BeforeStart(65535, 0), Damage::BeforeStart(65535, 1)] {
+                        if !emit(Case::Stream { lz11, tokens: toks.clone(), entry: entry.clone(), damage, ext: None }) {
                             return;
                         }
                     }
